@@ -288,7 +288,7 @@ def finish(prop, tier, seed, t0, res, rule, assumptions, oracle_version=None):
         for f in new:
             bysig.setdefault(f.sig, []).append(f)
         print('TRIAGE %s: %d unexplained failing cases in %d signatures' % (prop, len(new), len(bysig)))
-        for sig, fs in sorted(bysig.items(), key=lambda kv: -len(kv[1])):
+        for sig, fs in sorted(bysig.items(), key=lambda kv: -len(kv[1]))[:int(os.environ.get('VERIF_TRIAGE_TOP', '40'))]:
             print('%7d  %s' % (len(fs), sig))
             for f in fs[:int(os.environ.get('VERIF_TRIAGE_N', '3'))]:
                 print('           in=%s obs=%s ref=%s' % (json.dumps(f.inp, ensure_ascii=False, default=repr)[:160], json.dumps(f.obs, ensure_ascii=False, default=repr)[:160],
